@@ -276,7 +276,11 @@ pub async fn read_http_request<const BUF_SIZE: usize>(
     // A repeated content-length header makes the message framing ambiguous.  Reject it.
     let content_length = match head.headers.get_all("content-length").as_slice() {
         [] => None,
-        [s] => Some(s.parse().map_err(|_| HttpError::InvalidContentLength)?),
+        // `u64::from_str` accepts a leading '+'.  The header value must be 1*DIGIT.
+        [s] if s.bytes().all(|b| b.is_ascii_digit()) => {
+            Some(s.parse().map_err(|_| HttpError::InvalidContentLength)?)
+        }
+        [_] => return Err(HttpError::InvalidContentLength),
         _ => return Err(HttpError::InvalidContentLength),
     };
     #[allow(clippy::match_same_arms)]
